@@ -495,3 +495,113 @@ func runC19stress(tier string, seed int64, out *Out) {
 		out.emit(J{"k": "indep", "pid": "C19", "families": []string{"set-operand", "set-result"}, "g": 2, "ids": []int{id}, "same": same, "panics": panics})
 	}
 }
+
+// ---------------------------------------------------------------- C06
+
+type wgGroup struct {
+	wg   sync.WaitGroup
+	mu   sync.Mutex
+	adds int
+}
+
+func (g *wgGroup) Add(delta int) {
+	g.mu.Lock()
+	g.adds += delta
+	g.mu.Unlock()
+	g.wg.Add(delta)
+}
+func (g *wgGroup) Done() { g.wg.Done() }
+func (g *wgGroup) Wait() { g.wg.Wait() }
+
+// free-running Fork / Split / Split+Join with slow and bursty readers
+func runPipeStress(p pipeProg, r *rand.Rand) J {
+	class := col.Queue[int](notation)
+	input := class.MakeWithCapacity(uint(p.Cap))
+	grp := &wgGroup{}
+	var outputs []col.QueueLike[int]
+	helpers := 1
+	switch p.Op {
+	case "fork":
+		outputs = class.Fork(grp, input, uint(p.Fan)).AsArray()
+	case "split":
+		outputs = class.Split(grp, input, uint(p.Fan)).AsArray()
+	default:
+		outputs = []col.QueueLike[int]{class.Join(grp, class.Split(grp, input, uint(p.Fan)))}
+		helpers = 2
+	}
+	grp.mu.Lock()
+	reg := grp.adds
+	grp.mu.Unlock()
+	outs := make([][]int, len(outputs))
+	closed := make([]bool, len(outputs))
+	late := false
+	var mu sync.Mutex
+	var readers sync.WaitGroup
+	pauses := make([]int, len(outputs))
+	for k := range pauses {
+		pauses[k] = r.Intn(4) // 0: eager reader, otherwise slow / bursty
+	}
+	go func() {
+		for _, v := range p.Input {
+			input.AddValue(v)
+		}
+		input.CloseQueue()
+	}()
+	for k, o := range outputs {
+		k, o := k, o
+		readers.Add(1)
+		go func() {
+			defer readers.Done()
+			n := 0
+			for {
+				v, ok := o.RemoveHead()
+				if !ok {
+					mu.Lock()
+					closed[k] = true
+					if o.GetSize() != 0 || len(o.AsArray()) != 0 {
+						late = true
+					}
+					mu.Unlock()
+					return
+				}
+				outs[k] = append(outs[k], v)
+				n++
+				if pauses[k] > 0 && n%(7*pauses[k]) == 0 {
+					time.Sleep(time.Duration(pauses[k]*40) * time.Microsecond)
+				}
+			}
+		}()
+	}
+	status := "done"
+	finished := make(chan struct{})
+	go func() { readers.Wait(); grp.Wait(); close(finished) }()
+	select {
+	case <-finished:
+	case <-time.After(20 * time.Second):
+		status = "hang"
+	}
+	mu.Lock()
+	defer mu.Unlock()
+	if status != "done" {
+		outs = make([][]int, len(outputs))
+	}
+	return J{"k": "pipe", "pid": "C06", "prog": p, "op": p.Op, "input": ints(p.Input), "fan": p.Fan, "cap": p.Cap,
+		"outs": outs, "status": status, "group": 0, "closed": closed, "late": late, "mode": "stress", "steps": 0, "reg": reg, "helpers": helpers, "elem": "int"}
+}
+
+func runC06stress(tier string, seed int64, out *Out) {
+	r := rand.New(rand.NewSource(seed))
+	n := 60
+	if tier == "thorough" {
+		n = 600
+	}
+	for i := 0; i < n; i++ {
+		size := []int{0, 1, 5, 64, 333, 1000, 3000}[r.Intn(7)]
+		in := make([]int, size)
+		for j := range in {
+			in[j] = j + 1
+		}
+		p := pipeProg{[]string{"fork", "split", "splitjoin"}[i%3], in, 2 + r.Intn(7), 1 + r.Intn(4), "int"}
+		out.emit(runPipeStress(p, r))
+	}
+}
